@@ -1,34 +1,2 @@
-(* Proofs for Model/Fields.v and Model/Srv1.v (property C15).  Snapshot BEFORE the repairs of
-   D-C15-1 / D-C15-2: the two witnesses against the unrepaired code. *)
 From Coq Require Import ZArith List Bool Lia.
-From SP Require Import Base.Result Base.Bytes Model.SpacePacket Model.PusTm Model.ReqId Model.Fields Model.Srv1.
-Import ListNotations.
-Open Scope Z_scope.
-
-(* D-C15-2: check_pfc accepts field widths that are not 8/16/32/64 bits (round(pfc/8)) *)
-Lemma check_pfc_only_octet_widths_refuted :
-  exists pfc n, check_pfc pfc = Ok n /\ pfc <> 8 * n.
-Proof. exists 12, 2. split; [vm_compute; reflexivity | lia]. Qed.
-
-(* D-C15-1: a failure report decoded with matching widths has the same parameters but never
-   compares equal to the original *)
-Definition d_c15_1_witness : bool :=
-  match srv1_new 2 2 [] (Some {| vp_req := reqid_empty; vp_step := None;
-                                 vp_fn := Some {| fn_code := {| pfe_pfc := 8; pfe_val := 1 |}; fn_data := [] |} |})
-                 0 0 0 0 with
-  | Ok s =>
-      match srv1_pack s with
-      | Ok p =>
-          match srv1_unpack (fst p) {| up_ts_len := 0; up_step := 1; up_err := 1 |} with
-          | Ok u => match srv1_eq u (snd p), vp_pack (s1_vp u), vp_pack (s1_vp s) with
-                    | Ok false, Ok x, Ok y => bytes_eqb x y
-                    | _, _, _ => false
-                    end
-          | Err _ => false
-          end
-      | Err _ => false
-      end
-  | Err _ => false
-  end.
-Lemma srv1_decoded_equal_refuted : d_c15_1_witness = true.
-Proof. vm_compute. reflexivity. Qed.
+From SP Require Import Base.Result Base.Bytes.
